@@ -410,8 +410,17 @@ func panicToError(p any, skip int) *testError {
 		return nil
 	}
 
+	// capture the whole stack up to checkOnce: failures that differ only in frames
+	// further away from the panic are different failures, too
 	callers := make([]uintptr, tracebackLen)
-	callers = callers[:runtime.Callers(skip, callers)]
+	for {
+		n := runtime.Callers(skip, callers)
+		if n < len(callers) {
+			callers = callers[:n]
+			break
+		}
+		callers = make([]uintptr, 2*len(callers))
+	}
 	frames := runtime.CallersFrames(callers)
 
 	b := &strings.Builder{}
